@@ -251,6 +251,14 @@ def explore(run, tier):
                     cases.append({'k': 'file', 'cfg': cfg, 'codec': codec, 'b': b,
                                   'msgs': [iu.dict_wire(m) for m, _ in pairs], 'exps': [iu.dict_wire(e) for _, e in pairs],
                                   'with': i % 2 == 0, 'many': i % 4 == 0, 'defaultcfg': cfg == 'pkg' and i % 3 == 0})
+    # messages mixing PDSxxxx keys with a directly supplied later carrier element
+    for codec in codecs3:
+        for b in (0, 1):
+            pairs = [p for p in (iu.gen_mixed_pds(rng, pkg, codec) for _ in range(6)) if p]
+            if pairs:
+                cases.append({'k': 'file', 'cfg': 'pkg', 'codec': codec, 'b': b,
+                              'msgs': [iu.dict_wire(m) for m, _ in pairs], 'exps': [iu.dict_wire(e) for _, e in pairs],
+                              'with': b == 1, 'many': False, 'defaultcfg': True})
     # records whose ends / length prefixes land exactly on (or next to) a 1012-byte payload boundary, spanning
     # one to three further blocks: message sizes are tuned with plain LLLVAR text elements
     for codec in codecs3:
